@@ -98,6 +98,7 @@ Choose ==
      \/ task = "ppolyh" /\ \E b \in {<<2, 1, 3>>, <<1, 1, 1>>} : first' = b
      \/ task = "ang2" /\ \E a \in {x \in Fin2 : Keep(x, Stride)} : first' = a
      \/ task = "angl2" /\ \E h \in {x \in Lines2 : Keep(x, Stride)} : first' = h
+     \/ task = "angld2" /\ \E h \in {x \in Lines2 : Keep(x, Stride)} : first' = h
      \/ task = "ang3" /\ \E a \in {x \in Fin3 : Keep(x, 4 * Stride)} : first' = a
      \/ task = "angp3" /\ \E h \in {x \in Planes3 : Keep(x, Stride)} : first' = h
 
@@ -151,6 +152,9 @@ Compute ==
              \* direction of the line (a,b,c) is (b, -a); angle(l, m): from m's direction to l's direction
              /\ res' = [t |-> "angl2", l |-> first, m |-> m,
                         cs |-> AngleClass2(<<first[2], -first[1]>>, <<m[2], -m[1]>>)]
+     \/ /\ task = "angld2"       \* a line and a direction: a point stands for the direction from the origin to it (itself, at infinity)
+        /\ \E d \in {x \in Pts2 : ~(x[1] = 0 /\ x[2] = 0) /\ Keep(x, 2)} :
+             res' = [t |-> "angld2", l |-> first, d |-> d, cs |-> AngleClass2(<<first[2], -first[1]>>, <<d[1], d[2]>>)]
      \/ /\ task = "ang3"
         /\ \E b \in {x \in Fin3 : Keep(x, 3)}, c \in {x \in Fin3 : Keep(x, 2)} :
              /\ ~SameClass(first, b) /\ ~SameClass(first, c)
@@ -191,6 +195,11 @@ AngleLaws == (Done /\ res.t = "ang2") =>
    /\ \A M \in {Rot2(<<3, 4, 5>>), TranslationM(<<2, -1>>), Rot2(<<0, 1, 1>>)} :
         LET a2 == MatVec(M, res.a) b2 == MatVec(M, res.b) c2 == MatVec(M, res.c) IN
         AngleClass2(VScale(W(a2) * W(b2), Dir(a2, b2)), VScale(W(a2) * W(c2), Dir(a2, c2))) = res.cs
+\* a direction d stands for the line joining it with the origin; swapping the two arguments negates the angle
+AngleDirectionLaws == (Done /\ res.t = "angld2") =>
+   LET u == <<res.l[2], -res.l[1]>> v == <<res.d[1], res.d[2]>> od == Cross(<<0, 0, 1>>, res.d) IN
+   /\ AngleClass2(v, u) = Primitive(<<res.cs[1], -res.cs[2]>>)
+   /\ AngleClass2(u, <<od[2], -od[1]>>) = res.cs
 DistInvariant == (Done /\ res.t = "pp" /\ Len(res.a) = 3 /\ res.d2[2] > 0) =>
    \A M \in {Rot2(<<3, 4, 5>>), TranslationM(<<2, -1>>), MatPrimitive(ReflectionM(<<1, 2, -1>>))} :
         D2PP(MatVec(M, res.a), MatVec(M, res.b)) = res.d2
@@ -205,7 +214,7 @@ Stratum ==
     [] res.t = "ppoly" -> (IF res.d2[1] = 0 THEN "incident" ELSE IF res.inside THEN "foot-inside" ELSE "nearest-edge")
     [] res.t = "ppolyh" -> (IF res.d2[1] = 0 THEN "incident" ELSE "general")
     [] res.t \in {"parplane", "parline"} -> (IF res.d2[1] = 0 THEN "incident" ELSE "parallel")
-    [] res.t \in {"ang2", "angl2"} -> (IF res.cs[2] = 0 THEN "zero-angle" ELSE IF res.cs[1] = 0 THEN "right-angle" ELSE "general")
+    [] res.t \in {"ang2", "angl2", "angld2"} -> (IF res.cs[2] = 0 THEN "zero-angle" ELSE IF res.cs[1] = 0 THEN "right-angle" ELSE "general")
     [] OTHER -> (IF res.cos2[1] = 0 THEN "right-angle" ELSE "general")
 Dump == (Done /\ DoDump) => PrintT(ToJson([r |-> res, s |-> Stratum]))
 =============================================================================
